@@ -401,6 +401,19 @@ Section Main.
     intros HI Hfr. eapply query_finish with (s' := s) (r := Ok ADone); [exact Hfr|reflexivity|exact HI|apply ext_refl|reflexivity|reflexivity].
   Qed.
 
+  (* a unit lookup that raises leaves nothing behind but the cursor: every later query still gets its stateless answer *)
+  Lemma ref_CUAtFailing s afs off e c : Inv F s -> frames_rel F s afs -> refines s afs (CUAtFailing off e c).
+  Proof.
+    intros HI Hfr. destruct (Z.leb_spec 0 c).
+    - eapply query_finish with (s' := set_cur s (upd_nth S_INFO (fun _ => c) (cur s))) (r := Err e);
+        [exact Hfr| | | |reflexivity|reflexivity].
+      + cbn [run_op]. destruct (Z.leb_spec 0 c); [reflexivity|lia].
+      + apply Inv_set_cur; auto. apply upd_nth_length.
+      + apply ext_set_cur.
+    - eapply query_finish with (s' := s) (r := Err e); [exact Hfr| |exact HI|apply ext_refl|reflexivity|reflexivity].
+      cbn [run_op]. destruct (Z.leb_spec 0 c); [lia|reflexivity].
+  Qed.
+
   Lemma ref_ESectionByName s afs name : Inv F s -> frames_rel F s afs -> refines s afs (ESectionByName name).
   Proof.
     intros HI Hfr.
